@@ -357,13 +357,27 @@ class Runner:
                 lines.append("reset")
                 lines.extend(histories[h])
             bounds.append(len(lines))
-            out, rc, err = run_c(self.exe, lines, timeout=self.timeout, valgrind=self.valgrind)
+            # the time limit scales with the amount of work; a time-out is only believed after the
+            # history in progress has been re-run alone with a generous limit (a loaded machine or a
+            # long soak history is not a hang)
+            tmo = max(self.timeout, int(self.timeout + 0.03 * len(lines)))
+            out, rc, err = run_c(self.exe, lines, timeout=tmo, valgrind=self.valgrind)
             nxt = []
             for k, h in enumerate(pending):
                 lo, hi = bounds[k], bounds[k + 1]
                 if len(out) >= hi:
                     c_out[h] = out[lo + 1:hi]
                 else:
+                    if rc == -9:
+                        solo = ["reset"] + histories[h]
+                        o2, rc2, err2 = run_c(self.exe, solo, timeout=max(10 * self.timeout, 120) if self.timeout >= 20 else 4 * self.timeout,
+                                              valgrind=self.valgrind)
+                        if rc2 == 0 and len(o2) >= len(solo):
+                            c_out[h] = o2[1:len(solo)]
+                            nxt = pending[k + 1:]
+                            break
+                        out, rc, err = o2, rc2, err2
+                        lo = 0
                     c_out[h] = out[lo + 1:] if len(out) > lo else []
                     crash[h] = summarize_crash(err) if rc != 0 else "truncated output"
                     nxt = pending[k + 1:]
